@@ -161,8 +161,23 @@ func urlSchema(impl string) *jsonapi.Schema {
 	return s
 }
 
+// nbFields: a type whose attribute names begin or end with white space that is not ASCII (a member
+// name may: U+00A0, U+3000) - impl "softnb" / "wrapnb" add it to the schema as type "tn"
+var nbFields = defMap{"montant\u00a0": {Kind: "attr", K: "int"}, "\u3000nom": {Kind: "attr", K: "string"}, "zeta": {Kind: "attr", K: "string"},
+	"\u00a0lien": {Kind: "rel", To1: true, TT: "tb"}}
+
 func buildURLSchema(impl string) *jsonapi.Schema {
 	s := &jsonapi.Schema{}
+	if strings.HasSuffix(impl, "nb") {
+		impl = strings.TrimSuffix(impl, "nb")
+		if impl == "wrap" {
+			typ, err := jsonapi.BuildType(reflect.New(structType("tn", nbFields, kindMap{})).Interface())
+			must(err)
+			must(s.AddType(typ))
+		} else {
+			must(s.AddType(*softType("tn", nbFields, kindMap{})))
+		}
+	}
 	for _, name := range []string{"ta", "tb", "tc", "td", "e"} {
 		if impl == "wrap" {
 			typ, err := jsonapi.BuildType(reflect.New(structType(name, urlFields[name], kindMap{})).Interface())
@@ -186,7 +201,11 @@ func render(req uReq, st uStyle) string {
 	}
 	path := ""
 	for _, f := range frags {
-		path += "/" + neturl.PathEscape(f)
+		if st.Encode {
+			path += "/" + esc(f) // every reserved character percent-encoded, the plus sign too (%2B)
+		} else {
+			path += "/" + neturl.PathEscape(f)
+		}
 	}
 	lb, rb, comma := "[", "]", ","
 	if st.Encode {
@@ -612,7 +631,7 @@ func runChain(c uCase, raw string, schema *jsonapi.Schema, req uReq) uEvent {
 		ev.R.Filter = sameFilter(u1b, u2)
 		ev.R.S2Eq = u2.String() == s1
 		ev.R.Variants = true
-		for k := int64(1); k <= 4; k++ {
+		for k := int64(1); k <= 4 && c.Raw == ""; k++ { // (a case given as a raw text has no request to respell)
 			st := c.Style
 			st.Order = c.Style.Order + k*7919
 			st.ListPerm = k
@@ -765,6 +784,16 @@ func urlMain(args []string) {
 		r := uReq{Frags: f, Filter: "none", Page: "none"}
 		normReq(&r)
 		return r
+	}
+	// names that begin or end with white space beyond ASCII: the chain over a type of its own (the
+	// requests themselves are plain; what String() writes holds the names)
+	for _, impl := range []string{"softnb", "wrapnb"} {
+		for _, raw := range []string{"/tn", "/tn/1", "/tn?sort=-zeta", "/tn?fields[tn]=zeta", "/tn?fields%5Btn%5D=zeta&sort=zeta&page[size]=2", "/tn/1/%C2%A0lien"} {
+			st := style()
+			st.Impl, st.Busy = impl, false
+			stt.class("chain:names-with-wide-space")
+			emit(uCase{Fam: "url", Mode: "chain", Req: base([]string{"tn"}), Style: st, Raw: raw})
+		}
 	}
 	// every component against every path (the universe TLC model-checked) ...
 	for _, f := range vocab.Frags {
